@@ -116,6 +116,11 @@ var c05Summary = regexp.MustCompile(`^Matched: (\d+) / (\d+)`)
 
 func init() {
 	worlds["C05"] = func(rc *RunCtx) {
+		if (rc.Index/2)%4 == 3 && rc.Mode != simrt.ModeFree {
+			// one run in four: `rare histo|bars` in-process, final screen against the reference (zz_c05cli_test.go)
+			c05CliWorld(rc)
+			return
+		}
 		color.Enabled = false
 		humanize.Enabled = false
 		max := 40
